@@ -53,8 +53,20 @@ void family( std::string const& tname, int step, int bq = 2, int bt = 3 )
         add_seq_scenarios<A, Caps>( g_scen, base, { 1, 2, 3 }, { 0, 1, 2, 3, 4 }, { TProg(), full }, 3, 4 );
         return;
     }
+    // an insert that has chosen an emptied node as its place is overtaken by erase / insert / insert / erase of its neighbours, which
+    // leave that node empty again but with a larger key in front of it (ABA on a reused node; IterableList re-walks for that reason)
+    auto aba = [&]( bool with_iter ) {
+        Program p; p.name = "aba-empty-node-reuse";
+        p.prefix = { { INS, 5, 0 }, { INS, 9, 0 }, { INS, 20, 0 }, { DEL, 9, 0 } };
+        TProg t1 = { { INS, 10, 0 }, { HAS, 10, 0 } }; if ( with_iter ) t1.push_back( POp{ ITER, 0, 0 } );
+        p.threads = { t1, { { DEL, 5, 0 }, { INS, 15, 0 }, { INS, 12, 0 }, { DEL, 15, 0 } } };
+        g_scen.push_back( make_scenario<A>( base, p, SetCfg( 2, std::vector<int>{ 0, 5, 9, 10, 12, 15, 20 } ), 0, 1, 2 ));
+    };
     if ( vh::property() == "C19" ) {
-        if ( Caps::safe_iter::value ) add_iter_programs<A, Caps>( g_scen, base, { 0, 2, 4, 6, 5 }, { 0, 1, 2, 3, 4, 5, 6, 7 }, bq, bt );     // the new key 5 goes between 4 and 6
+        if ( Caps::safe_iter::value ) {
+            add_iter_programs<A, Caps>( g_scen, base, { 0, 2, 4, 6, 5 }, { 0, 1, 2, 3, 4, 5, 6, 7 }, bq, bt );     // the new key 5 goes between 4 and 6
+            aba( true );
+        }
         return;
     }
     bool del = Caps::has_erase::value;
@@ -69,6 +81,7 @@ void family( std::string const& tname, int step, int bq = 2, int bt = 3 )
     }
     if ( Caps::has_unlink::value )
         add_unlink_programs<A>( g_scen, base, { 0, 1, 2, 3 }, std::vector<int>(), step, bq, bt );
+    if ( del ) aba( false );
 }
 
 #if FAMILY == 1
